@@ -47,7 +47,7 @@ func UpdateMessageForChange(changedFile string) (string, string, string) {
 
 func ParseLog(text string) {
 	allString := revReg.FindAllString(text, -1)
-	if len(allString) == 1 {
+	if len(allString) >= 1 && strings.HasPrefix(text, allString[0]) {
 		str := ""
 		id := revReg.FindStringSubmatch(text)
 		str = strings.Split(text, id[0])[1]
